@@ -352,6 +352,9 @@ def st_settings(draw, band):
             if draw(st.booleans()):
                 th['min_n_cycles'] = draw(st.integers(1, 4))
             s['th'] = th
+        if draw(st.integers(0, 3)) == 0:
+            # amplitude-detection options left in place on a 'cycles' object: documented to be used for burst_method='amp' only
+            s['bk'] = {'min_n_cycles': draw(st.integers(0, 6))}
     else:
         if draw(st.integers(0, 3)) > 0:
             th = {draw(st.sampled_from(['burst_fraction_threshold', 'burst_fraction'])): draw(st.sampled_from([0.5, 0.9, 1]))}
